@@ -11,6 +11,7 @@ var VerifHarnesses = map[string]func(){
 	"VerifC17FillUpdate": VerifC17FillUpdate,
 	"VerifC17RefreshLoop": VerifC17RefreshLoop,
 	"VerifC17FillUpdate3": VerifC17FillUpdate3,
+	"VerifC17RefreshLoopRace": VerifC17RefreshLoopRace,
 }
 
 // VerifC17FillUpdate3: three concurrent Update callers on one group (a caller that backs off
@@ -152,4 +153,28 @@ func VerifC17RefreshLoop() {
 		zz.Assert(len(c.refreshLoopGroups) == 0, "C17.stopped loops unregister themselves")
 	}
 	zz.Assert(out != "deadlock", "C17.Stop lets every loop exit")
+}
+
+
+// VerifC17RefreshLoopRace: two callers ask for a refresh loop of the same group at the same
+// time (a cold start): under every interleaving exactly one of them starts a loop.
+func VerifC17RefreshLoopRace() {
+	v := &verifFill{running: map[string]int{}, lastOK: map[string]int{}, outcome: map[int]int{}}
+	c := NewFillCache(v.fn, time.Minute)
+	c.maxJitter = 200 * time.Microsecond // natively: the window between the check and the registration
+	var started [2]bool
+	var done [2]bool
+	for i := 0; i < 2; i++ {
+		i := i
+		zz.Go("starter", func() {
+			started[i] = c.RefreshLoop("g0")
+			done[i] = true
+		})
+	}
+	zz.RunSchedule(zz.Bound("c17RaceSteps", 16))
+	if done[0] && done[1] {
+		zz.Reach("both-callers-returned")
+		zz.Assert(started[0] != started[1], "C17.of two concurrent requests for one group's refresh loop exactly one starts a loop")
+		zz.Assert(len(c.refreshLoopGroups) == 1, "C17.one loop is registered after two concurrent requests")
+	}
 }
